@@ -48,11 +48,15 @@ def comprehension(eng, node, src):
         # order-preserving map with the injective str(): modelled by an uninterpreted map function
         lt = TList(TStr)
         f = z3.Function('map_str', TList(TInt).sort(), lt.sort())
+        from pyvc import lists as L
         out = f(src.z)
-        i = z3.Int(fresh_name('i'))
+        i = z3.Int('ms_i')
         S = TStr.sort()
-        eng.assume(z3.Length(out) == z3.Length(src.z))
-        eng.assume(z3.ForAll([i], z3.Implies(z3.And(i >= 0, i < z3.Length(src.z)), out[i] == S.of_int(src.z[i]))))
+        eng.assume(L.canon(lt, out))
+        eng.assume(L.l_len(lt, out) == L.l_len(src.t, src.z))
+        sel = L.l_get(lt, out, i)
+        eng.assume(z3.ForAll([i], z3.Implies(z3.And(i >= 0, i < L.l_len(src.t, src.z)),
+                                             sel == S.of_int(L.l_get(src.t, src.z, i))), patterns=[sel]))
         return V(lt, out)
     return None
 
